@@ -67,6 +67,7 @@ func c03confs() []c03conf {
 	addrs := "{\"ip\":\"10.0.1.3\"}\n{\"ip\":\"192.168.9.9\"}\n"
 	p201, c201 := c03manyPorts(201)
 	p401, c401 := c03manyPorts(401)
+	p200, c200 := c03manyPorts(200)
 	return []c03conf{
 		{name: "arp", args: []string{"arp", "10.0.1.0/28"}, kind: "arp", subnet: "10.0.1.0/28"},
 		{name: "icmp", args: []string{"icmp", "10.0.1.0/28"}, kind: "icmp", scan: "icmp", subnet: "10.0.1.0/28"},
@@ -81,6 +82,7 @@ func c03confs() []c03conf {
 		{name: "tcp-fin-addr-file", args: []string{"tcp", "fin", "-p", "80,100-102", "-f", "{DIR}/t.jsonl"}, kind: "tcp", scan: "tcpfin", chunks: one("80,100-102"), files: map[string]string{"t.jsonl": addrs}},
 		{name: "icmp-addr-file", args: []string{"icmp", "-f", "{DIR}/t.jsonl"}, kind: "icmp", scan: "icmp", files: map[string]string{"t.jsonl": addrs}},
 		{name: "tcp-syn-201-ranges", args: []string{"tcp", "syn", "-p", p201, "10.0.1.0/30"}, kind: "tcp", scan: "tcpsyn", syn: true, subnet: "10.0.1.0/30", chunks: c201},
+		{name: "tcp-fin-200-ranges", args: []string{"tcp", "fin", "-p", p200, "10.0.1.0/30"}, kind: "tcp", scan: "tcpfin", subnet: "10.0.1.0/30", chunks: c200},
 		{name: "tcp-syn-vpn", args: []string{"tcp", "syn", "-p", "80,100-102", "10.0.1.0/28"}, kind: "tcp", scan: "tcpsyn", syn: true, subnet: "10.0.1.0/28", chunks: one("80,100-102"), vpn: true},
 		{name: "icmp-vpn", args: []string{"icmp", "10.0.1.0/28"}, kind: "icmp", scan: "icmp", subnet: "10.0.1.0/28", vpn: true},
 		{name: "udp-401-ranges", args: []string{"udp", "-p", p401, "10.0.1.0/30"}, kind: "icmp", scan: "udp", subnet: "10.0.1.0/30", thorough: true},
@@ -368,10 +370,13 @@ func verifC03(c *drv.Ctx) {
 		all := c03alphabet(cf, c.Thorough())
 		// two runs per configuration: the frames the iff speaks about, and the don't-care frames
 		// (fragments, VLAN-tagged) on their own, so that their slack cannot hide a phantom record
-		for phase := 0; phase < 2; phase++ {
+		// a third run: the frames the iff speaks about arrive right after each chunk's socket was created,
+		// before the program had a chance to attach its filter to it (an AF_PACKET socket queues what the
+		// interface sees from the moment it is bound)
+		for phase := 0; phase < 3; phase++ {
 			var frames []c03frame
 			for _, f := range all {
-				if f.wellFormed == (phase == 0) {
+				if f.wellFormed == (phase != 1) {
 					frames = append(frames, f)
 				}
 			}
@@ -395,7 +400,25 @@ func verifC03(c *drv.Ctx) {
 			}
 			// every verdict of the BPF VM is compared with the running kernel's filter engine
 			sc.World = func(w *zzvenv.World) { world(w); w.KernelBPF = true }
+			if phase == 2 {
+				injectedInto = injectedInto[:0]
+				accepted = accepted[:0]
+				sc.World = func(w *zzvenv.World) {
+					world(w)
+					w.OnOpen = func(t *zzvenv.TPacket) {
+						injectedInto = append(injectedInto, len(injectedInto))
+						acc := make([]bool, len(frames))
+						for i := range frames {
+							acc[i] = zzvenv.Inject(frames[i].data) > 0
+						}
+						accepted = append(accepted, acc)
+					}
+				}
+			}
 			sc.Net = func(r *vE2ERun) {
+				if phase == 2 {
+					return
+				}
 				for k := 0; k < nchunks; k++ {
 					if k == 0 {
 						time.Sleep(100 * time.Millisecond)
@@ -410,6 +433,20 @@ func verifC03(c *drv.Ctx) {
 					for i := range frames {
 						accepted[k][i] = zzvenv.Inject(frames[i].data) > 0
 					}
+				}
+				// a pass the reference does not know of (a further socket opens after the last chunk): the
+				// alphabet goes into its window too, and nothing it carries is a reply to that pass
+				for k := nchunks; k < nchunks+2; k++ {
+					time.Sleep(300 * time.Millisecond)
+					if len(zzvenv.W.Socks)-1 != k || len(zzvenv.OpenSockets()) != 1 {
+						break
+					}
+					injectedInto = append(injectedInto, k)
+					acc := make([]bool, len(frames))
+					for i := range frames {
+						acc[i] = zzvenv.Inject(frames[i].data) > 0
+					}
+					accepted = append(accepted, acc)
 				}
 			}
 			run, x := vE2EOnce(sc)
@@ -458,7 +495,10 @@ func verifC03(c *drv.Ctx) {
 			must, may := map[string]int{}, map[string]int{}
 			suspects := map[string][]string{} // record -> frames that passed the socket filter although not reply-shaped
 			nshaped := 0
-			for k := 0; k < nchunks; k++ {
+			if len(injectedInto) > nchunks {
+				c.Note("%s: %d sockets were opened one after the other, the target specification makes %d chunk(s) of <= 200 port ranges; the alphabet was injected into the extra windows too", cf.name, len(injectedInto), nchunks)
+			}
+			for k := 0; k < len(injectedInto); k++ {
 				for i := range frames {
 					m, my, rec := c03shaped(cf, &frames[i], k)
 					if m {
@@ -472,7 +512,7 @@ func verifC03(c *drv.Ctx) {
 					}
 				}
 			}
-			c.Eval(len(frames) * nchunks)
+			c.Eval(len(frames) * len(injectedInto))
 			c.Nontrivial(nshaped)
 			// every must-report frame reported exactly once; nothing else except don't-cares
 			var missing, extra []string
@@ -501,6 +541,9 @@ func verifC03(c *drv.Ctx) {
 						// name the frame that slipped through the socket filter
 						f := strings.Fields(sus[0])
 						cl = "passed-filter:" + f[0] + ":" + f[3]
+					if phase == 2 {
+						cl = "before-filter-attached:" + f[0]
+					}
 						e += " <= " + strings.Join(sus, " ; ")
 					}
 					classes[cl] = append(classes[cl], e)
